@@ -7,6 +7,8 @@
 //@include attrs_vocab.vs
 //@include chrono_standin.vs
 //@include formatter_vocab.vs
+use crate::parser::*;
+//@include parser_vocab.vs
 //@include seam_vocab.vs
 //@include block_vocab.vs
 
@@ -75,6 +77,7 @@ pub use crate::removal_evaluator;
 //@item file=code/remover.rs kind=struct name=Remover
 //@include remover_vocab.vs
 //@include collect_vocab.vs
+//@include parser_link_vocab.vs
 //@import remover_new
 //@import remove
 //@import get_removed_pos
@@ -128,14 +131,36 @@ pub mod parser_fns {
 use super::*;
 use crate::tokenizer;
 use crate::parser::*;
-use crate::tokenizer_fns::{tok_chain, toks_ok};
+use crate::tokenizer_fns::{tok_chain, toks_ok, tok_ok};
 use crate::remover::{parts_wf, parts_on_b, all_el_wf};
-//@fn id=parser_parse file=parser.rs name=parse props=C01,C02,C03,C04 stub=only trusted="assumed contract (C10 not decided)"
-//@ret r
-//@ensures label=parse_assumed_wf
-    forall|cs: Seq<char>, ds: &str, de: &str| #[trigger] tok_chain(tokens@, cs, cs.len() as int) && #[trigger] toks_ok(tokens@, encode_utf8(cs), ds, de)
-        ==> parts_wf(r@, 0, encode_utf8(cs).len() as int) && parts_on_b(r@, encode_utf8(cs)) && all_el_wf(r@),
-//@end
+//@import parser_parse_proved
+
+pub proof fn lemma_toks_seq_ok_all(ts: Seq<tokenizer::Token>, cs: Seq<char>)
+    ensures forall|ds: &str, de: &str| tok_chain(ts, cs, cs.len() as int) && #[trigger] toks_ok(ts, encode_utf8(cs), ds, de) ==> crate::remover::toks_seq_ok(ts, encode_utf8(cs)),
+{
+    assert forall|ds: &str, de: &str| tok_chain(ts, cs, cs.len() as int) && #[trigger] toks_ok(ts, encode_utf8(cs), ds, de) implies crate::remover::toks_seq_ok(ts, encode_utf8(cs)) by {
+        lemma_toks_seq_ok(ts, cs, ds, de);
+    }
+}
+
+/// the token chain proved for tokenizer::tokenize (C07) gives the contiguity the parse-tree lemma needs
+pub proof fn lemma_toks_seq_ok(ts: Seq<tokenizer::Token>, cs: Seq<char>, ds: &str, de: &str)
+    requires tok_chain(ts, cs, cs.len() as int), toks_ok(ts, encode_utf8(cs), ds, de),
+    ensures crate::remover::toks_seq_ok(ts, encode_utf8(cs)),
+{
+    let b = encode_utf8(cs);
+    lemma_char_pos_mono(cs, 0, cs.len() as int);
+    assert forall|k: int| 0 <= k < ts.len() implies (#[trigger] ts[k]).byte_start < ts[k].byte_end && ts[k].byte_end == crate::remover::tok_pos(ts, b, k + 1)
+            && ts[k].byte_end <= b.len() && cb(b, ts[k].byte_start as int) && cb(b, ts[k].byte_end as int) by {
+        assert(tok_ok(ts[k], b, ds, de));
+        lemma_char_pos_mono(cs, ts[k].start as int, ts[k].end as int);
+        if k + 1 < ts.len() { assert(ts[k].end == ts[k + 1].start); assert(tok_ok(ts[k + 1], b, ds, de)); }
+        else { assert(ts[ts.len() - 1].end == cs.len()); }
+    }
+    if ts.len() > 0 { assert(ts[0].start == 0); }
+    else { assert(cs.len() == 0); assert(cs.take(0) =~= cs); }
+}
+
 }
 
 pub mod chiritori {
@@ -254,8 +279,15 @@ pub proof fn lemma_removed_pos_eq(mk: Seq<RemoveMarker>, rp: Seq<crate::RemovedM
     proof { encode_utf8_valid_utf8(content@); axiom_rc_string_len_isize(content); }
 //@at before "let remover = build_remover"
     proof {
+        crate::parser_fns::lemma_toks_seq_ok_all(tokens@, content@);
+        assert(toks_seq_ok(tokens@, b));
+        assert(tokens@.subrange(0, tokens@.len() as int) =~= tokens@);
+        lemma_parts_from_flatten(parsed@, tokens@, b, 0, tokens@.len() as int);
+        reveal(parts_wf);
         assert(parts_wf(parsed@, 0, b.len() as int) && parts_on_b(parsed@, b) && all_el_wf(parsed@));
     }
+//@at before "let parsed = parser::parse"
+    proof { crate::axiom_token_vec_len(&tokens); }
 //@at before "let (removed, markers) = remover.remove"
     let ghost parts = parsed@;
     let ghost f = collect_spec(remover, parts, false).0;
